@@ -139,6 +139,8 @@ class MonoSubtreeView(ColSequence, ComplexView):
                 start, end = offsets[i], offsets[i+1]
                 if end < start:
                     raise Exception(f"offsets[{i}] value {start} is invalid, next offset is {end}")
+                if end > scope:
+                    raise Exception(f"offsets[{i + 1}] value {end} is invalid, it exceeds the scope {scope}")
                 elem_size = end - start
                 if not (elem_min <= elem_size <= elem_max):
                     raise Exception(f"offset[{i}] value {start} is invalid, next offset is {end},"
@@ -910,6 +912,8 @@ class Container(_ContainerBase):
                     next_offset = dyn_fields[i + 1].offset if i + 1 < len(dyn_fields) else scope
                     if foffset > next_offset:
                         raise Exception(f"offset {i} is invalid: {foffset} larger than next offset {next_offset}")
+                    if next_offset > scope:
+                        raise Exception(f"offset {i + 1} is invalid: {next_offset} exceeds the scope {scope}")
                     fsize = next_offset - foffset
                     f_min_size, f_max_size = ftyp.min_byte_length(), ftyp.max_byte_length()
                     if not (f_min_size <= fsize <= f_max_size):
